@@ -61,6 +61,10 @@ ReqInit(c) ==
     upAtCancel |-> FALSE,      \* a fault-free session was up when the stop request arrived
     faultAtCancel |-> FALSE,   \* a fault was already pending when the stop request arrived
     faultAt  |-> -1,           \* a fault was observed at this time and the session is still up
+    fcls     |-> {},           \* classes of the faults seen on the open connection: "rec" (link change, non-permission
+                               \* system call error) / "fatal" (anything else)
+    doneCls  |-> {},           \* fcls of the connection cleaned up last, while no dial attempt has followed
+    postDone |-> FALSE,        \* a connection was cleaned up and nothing (dial attempt, return) has followed yet
     retAt    |-> -1,
     sureFinal|-> 0,            \* post-cancel multicast wcalls with life 0 although forwarding read TRUE
     finalSeen|-> FALSE,        \* the final RA has been called
@@ -69,6 +73,9 @@ ReqInit(c) ==
     reading  |-> FALSE,        \* listener is inside ReadFrom
     nTO      |-> 0,            \* consecutive receive timeouts
     resumeAt |-> -1,           \* next ReadFrom must be issued exactly then (back-off)
+    invSrcs  |-> {},           \* sources of messages that failed validation (C09: they are owed nothing)
+    nRA      |-> 0,            \* valid RAs received
+    nHook    |-> 0,            \* consistency reports made
     exp      |-> ZeroCnt,      \* counters the requirement expects
     obs      |-> ZeroCnt,      \* counters observed
     bad      |-> {} ]      \* names of the violated clauses
@@ -87,10 +94,14 @@ Deadlines(m, T) ==
   ELSE IF \E t \in m.owedM : T - t > MinDelay THEN Flag(m, "c06-trigger-unserved")
   ELSE m
 
+\* C10 recovery policy at the task level: the Dialer may only try again after a recoverable cause. When causes of
+\* both classes were seen on one connection the first one reported wins a race, so either outcome is allowed.
 OnDial(m, e) ==
-  IF e.res # "ok" THEN m
-  ELSE LET m1 == IF Up(m) THEN Flag(m, "c11-dial-while-connection-open") ELSE m IN
-       [m1 EXCEPT !.k = e.k, !.nW = 0, !.credit = 1, !.dialT = e.t, !.lastTrig = -1, !.prevReq = -1, !.lastMc = -1, !.owedM = {}, !.owedU = <<>>, !.pend = <<>>,
+  LET m0 == IF m.postDone /\ m.doneCls = {"fatal"} THEN Flag(m, "c10-task-retried-after-unrecoverable-fault") ELSE m
+      mp == [m0 EXCEPT !.postDone = FALSE, !.doneCls = {}] IN
+  IF e.res # "ok" THEN mp
+  ELSE LET m1 == IF Up(mp) THEN Flag(mp, "c11-dial-while-connection-open") ELSE mp IN
+       [m1 EXCEPT !.fcls = {}, !.k = e.k, !.nW = 0, !.credit = 1, !.dialT = e.t, !.lastTrig = -1, !.prevReq = -1, !.lastMc = -1, !.owedM = {}, !.owedU = <<>>, !.pend = <<>>,
                   !.faultAt = -1, !.reading = FALSE, !.nTO = 0, !.resumeAt = -1]
 
 OnDone(m, e) ==
@@ -98,7 +109,8 @@ OnDone(m, e) ==
             ELSE IF e.k # m.k THEN Flag(m, "c11-cleanup-of-unknown-connection")
             ELSE IF m.nOpen > 0 THEN Flag(m, "c10-cleanup-with-write-in-flight")
             ELSE IF m.reading /\ FALSE THEN m ELSE m IN
-  [m1 EXCEPT !.cleaned = @ \cup {e.k}, !.k = 0, !.faultAt = -1, !.owedM = {}, !.owedU = <<>>]
+  [m1 EXCEPT !.cleaned = @ \cup {e.k}, !.k = 0, !.faultAt = -1, !.owedM = {}, !.owedU = <<>>,
+             !.doneCls = m.fcls, !.postDone = TRUE, !.fcls = {}]
 
 OnRCall(m, e) ==
   LET m1 == IF e.k \in m.cleaned THEN Flag(m, "c10-read-after-cleanup")
@@ -116,27 +128,29 @@ OnIn(m, e) ==
   ELSE IF e.kind = "timeout" THEN
        IF m0.nTO + 1 >= Retries
        THEN \* the last timeout still gets its back-off; then the session must end
-            [m0 EXCEPT !.nTO = @ + 1,
+            [m0 EXCEPT !.nTO = @ + 1, !.fcls = @ \cup {"fatal"},      \* a timeout is not a system call error
                        !.faultAt = IF @ = -1 /\ m0.cancelAt = -1 THEN e.t + m0.nTO * BackoffUnit ELSE @]
        ELSE [m0 EXCEPT !.nTO = @ + 1, !.resumeAt = e.t + m0.nTO * BackoffUnit]
   ELSE IF e.kind = "readerr" THEN
-       [m0 EXCEPT !.faultAt = IF @ = -1 /\ m0.cancelAt = -1 THEN e.t ELSE @]
+       [m0 EXCEPT !.faultAt = IF @ = -1 /\ m0.cancelAt = -1 THEN e.t ELSE @,
+                  !.fcls = @ \cup {IF e.cls = "sys" THEN "rec" ELSE "fatal"}]
   ELSE IF e.hl # 255 THEN
        \* C09: counted invalid, nothing else may follow from it; does not touch the retry budget
-       [m0 EXCEPT !.exp = Bump(@, "inv")]
-  ELSE LET m1 == [m0 EXCEPT !.nTO = 0, !.exp = Bump(@, "rx")] IN
+       [m0 EXCEPT !.exp = Bump(@, "inv"), !.invSrcs = @ \cup {e.src}]
+  ELSE LET m1 == [m0 EXCEPT !.nTO = 0, !.exp = Bump(@, "rx"), !.nRA = IF e.kind = "ra" THEN @ + 1 ELSE @] IN
        IF m.monmode THEN m1
        ELSE IF e.kind = "rs" THEN
             IF e.src = UNSPEC
             THEN IF m1.unicast THEN m1 ELSE [m1 EXCEPT !.owedM = @ \cup {e.t}, !.lastTrig = e.t]
             ELSE [m1 EXCEPT !.owedU = Append(@, [dst |-> e.src, t |-> e.t])]
        ELSE IF e.kind = "ra" THEN m1
-       ELSE [m1 EXCEPT !.exp = Bump(@, "inv")]      \* other NDP type on an advertising interface
+       ELSE [m1 EXCEPT !.exp = Bump(@, "inv"), !.invSrcs = @ \cup {e.src}]      \* other NDP type on an advertising interface
 
 OnFwd(m, e) ==
   IF m.inQuery THEN [m EXCEPT !.qreads = Append(@, e.val)]
   ELSE LET m1 == IF m.retAt # -1 THEN Flag(m, "c08-ra-generation-after-return") ELSE m IN
        [m1 EXCEPT !.pend = Append(@, e.val),
+                  !.fcls = IF e.ok THEN @ ELSE @ \cup {"rec", "fatal"},     \* (the class of a failed read is not logged)
                   !.nFalse = IF ~e.val /\ m.cfglife > 0 /\ m.cancelAt = -1 THEN @ + 1 ELSE @]
 
 \* C04 on the metrics and debug-API paths: the query reads forwarding once for this interface and reports
@@ -203,6 +217,7 @@ OnWCall(m, e) ==
             ELSE IF mc /\ ~initial /\ ~finalCand /\ m.strictMc /\ e.t - m.dialT < InitCap /\ m.owedM = {} /\ m.credit = 0
                     /\ ~(m.lastTrig # -1 /\ e.t - m.lastTrig <= MinDelay)   \* a burst may legitimately get a second RA
                  THEN Flag(m, "c07-c09-multicast-ra-without-any-trigger")
+            ELSE IF ~mc /\ oi = 0 /\ e.dst \in m.invSrcs THEN Flag(m, "c09-ra-in-response-to-an-invalid-message")
             ELSE IF ~mc /\ oi = 0 THEN Flag(m, "c07-unsolicited-or-duplicate-unicast-ra")
             ELSE IF ~mc /\ ~m.anyHold /\ e.t - m.owedU[oi].t >= MaxRADelay THEN Flag(m, "c07-unicast-ra-late")
             ELSE IF m.body # "" /\ e.body # m.body THEN Flag(m, "c04-c08-content-other-than-lifetime-changed")
@@ -232,7 +247,8 @@ OnWRet(m, e) ==
                        !.exp = IF ~counted THEN @
                                ELSE IF ~e.ok THEN Bump(@, "txerr")
                                ELSE IF mc THEN Bump(@, "m") ELSE Bump(@, "u"),
-                       !.faultAt = IF ~e.ok /\ ~final /\ @ = -1 /\ m1.cancelAt = -1 THEN e.t ELSE @]
+                       !.faultAt = IF ~e.ok /\ ~final /\ @ = -1 /\ m1.cancelAt = -1 THEN e.t ELSE @,
+                       !.fcls = IF e.ok \/ final THEN @ ELSE @ \cup {IF e.cls = "sys" THEN "rec" ELSE "fatal"}]
   IN m2
 
 OnCnt(m, e) == IF e.c \in CounterNames THEN [m EXCEPT !.obs = Bump(@, e.c)] ELSE m
@@ -241,21 +257,24 @@ OnHook(m, e) ==      \* consistency-check path: the RA handed to the hook is a g
   LET wantT == FirstPend(m.pend, TRUE)
       wantF == FirstPend(m.pend, FALSE)
       used  == IF wantT # 0 /\ e.life = m.cfglife THEN wantT ELSE IF wantF # 0 /\ e.life = 0 THEN wantF ELSE 0
-      m1 == IF used = 0 THEN Flag(m, "c04-hook-lifetime-not-explained-by-a-forwarding-read")
+      m1 == IF m.nHook >= m.nRA THEN Flag(m, "c09-consistency-report-without-a-valid-ra")
+            ELSE IF used = 0 THEN Flag(m, "c04-hook-lifetime-not-explained-by-a-forwarding-read")
             ELSE IF m.body # "" /\ e.body # m.body THEN Flag(m, "c04-hook-content-changed") ELSE m
-  IN [m1 EXCEPT !.pend = IF used = 0 THEN @ ELSE DropAt(@, used)]
+  IN [m1 EXCEPT !.pend = IF used = 0 THEN @ ELSE DropAt(@, used), !.nHook = @ + 1]
 
 OnCancel(m, e) == IF m.cancelAt # -1 THEN m
                   ELSE [m EXCEPT !.cancelAt = e.t, !.term = e.term,
                                  !.upAtCancel = Up(m) /\ m.faultAt = -1, !.faultAtCancel = m.faultAt # -1]
-OnLink(m, e)   == IF Up(m) /\ m.cancelAt = -1 /\ m.faultAt = -1 THEN [m EXCEPT !.faultAt = e.t] ELSE m
+OnLink(m, e)   == LET m1 == IF Up(m) THEN [m EXCEPT !.fcls = @ \cup {"rec"}] ELSE m IN
+                  IF Up(m) /\ m.cancelAt = -1 /\ m.faultAt = -1 THEN [m1 EXCEPT !.faultAt = e.t] ELSE m1
 OnHold(m, e)    == [m EXCEPT !.nHeld = @ + 1, !.anyHold = TRUE]
 OnRelease(m, e) == [m EXCEPT !.nHeld = IF @ > 0 THEN @ - 1 ELSE 0]
 
 \* A quiescent point at time T: every goroutine is blocked.
 OnQuiet(m, e) ==
   LET m1 == Deadlines(m, e.t)
-      m2 == IF m1.nOpen = 0 /\ m1.cancelAt = -1 /\ m1.obs # m1.exp THEN Flag(m1, "c07-counters-differ-from-transmissions-and-receptions") ELSE m1
+      m2a == IF m1.nOpen = 0 /\ m1.cancelAt = -1 /\ m1.obs # m1.exp THEN Flag(m1, "c07-counters-differ-from-transmissions-and-receptions") ELSE m1
+      m2 == IF m1.nOpen = 0 /\ m1.cancelAt = -1 /\ m1.obs.inv # m1.exp.inv THEN Flag(m2a, "c09-invalid-counter-differs-from-invalid-messages") ELSE m2a
       m2b == IF Live(m2) /\ ~m2.unicast /\ ~m2.monmode /\ m2.lastMc # -1 /\ e.t - m2.lastMc > RoundSec(m2.maxiv) + MinDelay
              THEN Flag(m2, "c05-unsolicited-multicast-ra-overdue") ELSE m2
       m3 == IF Live(m2b) /\ ~m2b.reading /\ m2.resumeAt = -1 /\ m2.nHeld = 0 /\ m2.retAt = -1
@@ -278,6 +297,10 @@ OnRet(m, e) ==
             ELSE IF m.nOpen > 0 THEN Flag(m, "c08-return-with-write-in-flight")
             ELSE IF m.cancelAt # -1 /\ e.res # "nil" /\ ~m.faultAtCancel
                  THEN Flag(m, "c08-c10-error-reported-on-clean-stop")
+            ELSE IF m.cancelAt = -1 /\ m.postDone /\ m.doneCls = {"rec"} /\ e.res # "nil"
+                 THEN Flag(m, "c10-task-ended-after-recoverable-fault")
+            ELSE IF m.cancelAt = -1 /\ m.postDone /\ m.doneCls # {} /\ e.res = "nil"
+                 THEN Flag(m, "c10-fault-not-reported")
             ELSE IF needFinal /\ ~(m.lastW.mc /\ m.lastW.life = 0 /\ m.lastW.t >= m.cancelAt)
                  THEN Flag(m, "c08-final-ra-missing-or-not-last")
             ELSE m
